@@ -200,6 +200,164 @@ Fixpoint write_chunks (ctx : rctx) (st : wstate) (chunks : list (list N)) : outc
       end
   end.
 
+(* ---------- TTYCommandDecoder (MatcherDecoder, src/decoder.rs:190-301) ---------- *)
+Fixpoint d_delta_in (tr : list (nat * N * N * nat)) (q : nat) (b : N) : option nat :=
+  match tr with
+  | [] => None
+  | (f, lo, hi, t) :: rest =>
+      if (f =? q) && (lo <=? b)%N && (b <=? hi)%N then Some t else d_delta_in rest q b
+  end.
+
+Definition d_delta (d : dfa) (q : nat) (b : N) : option nat := d_delta_in (d_trans d) q b.
+Definition d_inf (d : dfa) (q : nat) : bool * bool * nat := nth q (d_info d) (false, false, 0).
+
+(* what the writer distinguishes among decoded commands *)
+Inductive titem :=
+| TChar (ch : N)           (* TerminalCommand::Char *)
+| TFace (seq : list N)     (* TerminalCommand::FaceModify(sgr_face(..)), identified by the matched bytes *)
+| TRaw (bytes : list N).   (* unrecognised bytes: TerminalCommand::Raw, ignored by the writer *)
+
+Record tstate := mkT {
+  t_q : nat;                          (* automata_state *)
+  t_buf : list N;                     (* bytes consumed since the automaton was last reset *)
+  t_resched : list N;                 (* rescheduled bytes, next to be re-parsed first *)
+  t_cand : option (titem * nat) }.    (* item_candidate: item and buffer length at that point *)
+
+Definition t0 (d : dfa) : tstate := mkT (d_start d) [] [] None.
+
+(* matchers of TTY_COMMAND_AUTOMATA: 0 = SGR, 1 = UTF-8 character *)
+Definition decode_item (tag : nat) (buf : list N) : titem :=
+  match tag with
+  | O => TFace buf
+  | 1 => TChar (utf8_value buf)
+  | _ => TRaw buf
+  end.
+
+(* take_candidate: bytes consumed after the candidate go back, in order, in front of the
+   bytes already waiting *)
+Definition take_candidate (d : dfa) (st : tstate) : option (tstate * titem) :=
+  match t_cand st with
+  | Some (item, size) => Some (mkT (d_start d) [] (skipn size (t_buf st) ++ t_resched st) None, item)
+  | None => None
+  end.
+
+(* decode_byte *)
+Definition decode_byte (d : dfa) (st : tstate) (b : N) : tstate * option titem :=
+  let buf := t_buf st ++ [b] in
+  match d_delta d (t_q st) b with
+  | Some q' =>
+      let '(acc, term, tag) := d_inf d q' in
+      if acc then
+        let st1 := mkT q' buf (t_resched st) (Some (decode_item tag buf, length buf)) in
+        if term then
+          match take_candidate d st1 with
+          | Some (st2, item) => (st2, Some item)
+          | None => (st1, None)
+          end
+        else (st1, None)
+      else (mkT q' buf (t_resched st) (t_cand st), None)
+  | None =>
+      match take_candidate d (mkT (t_q st) buf (t_resched st) (t_cand st)) with
+      | Some (st2, item) => (st2, Some item)
+      | None =>
+          if 1 <? length buf then (mkT (d_start d) [] (b :: t_resched st) None, Some (TRaw (t_buf st)))
+          else (mkT (d_start d) [] (t_resched st) None, Some (TRaw buf))
+      end
+  end.
+
+Definition olist {A} (o : option A) : list A := match o with Some x => [x] | None => [] end.
+
+(* rescheduled bytes are parsed again before any new input *)
+Fixpoint drain (d : dfa) (fuel : nat) (st : tstate) : outcome (tstate * list titem) :=
+  match t_resched st with
+  | [] => Ok (st, [])
+  | b :: r =>
+      match fuel with
+      | O => OutOfFuel
+      | S f =>
+          let '(st1, o) := decode_byte d (mkT (t_q st) (t_buf st) r (t_cand st)) b in
+          match drain d f st1 with
+          | Ok (st2, os) => Ok (st2, olist o ++ os)
+          | other => other
+          end
+      end
+  end.
+
+Definition tok_weight (st : tstate) : nat :=
+  let t := length (t_resched st) + length (t_buf st) in t * (t + 1) + length (t_resched st) + 1.
+
+(* one input byte: decode_byte, then everything that was rescheduled *)
+Definition tok_feed (d : dfa) (st : tstate) (b : N) : outcome (tstate * list titem) :=
+  let '(st1, o) := decode_byte d st b in
+  match drain d (tok_weight st1) st1 with
+  | Ok (st2, os) => Ok (st2, olist o ++ os)
+  | other => other
+  end.
+
+(* FaceModify::apply(face) for the SGR sequence `seq`, looked up in the table of the context *)
+Definition face_eqb (a b : face) : bool :=
+  let oeq := fun x y => match x, y with
+                        | Some p, Some q => N.eqb p q | None, None => true | _, _ => false end in
+  oeq (f_fg a) (f_fg b) && oeq (f_bg a) (f_bg b) && N.eqb (f_attrs a) (f_attrs b).
+
+Fixpoint bytes_eqb (x y : list N) : bool :=
+  match x, y with
+  | [], [] => true
+  | a :: x', b :: y' => N.eqb a b && bytes_eqb x' y'
+  | _, _ => false
+  end.
+
+Fixpoint sgr_lookup (tab : list (list N * face * face)) (seq : list N) (f : face) : face :=
+  match tab with
+  | [] => f
+  | (s, before, after) :: rest =>
+      if bytes_eqb s seq && face_eqb before f then after else sgr_lookup rest seq f
+  end.
+
+(* TTYCellWriter::write: commands applied to the parent writer as they are decoded;
+   the result of put_char is ignored, the call always returns Ok *)
+Fixpoint tty_apply (ctx : rctx) (st : wstate) (items : list titem) : outcome wstate :=
+  match items with
+  | [] => Ok st
+  | TChar ch :: t =>
+      match put_char ctx st ch with
+      | Ok (st', _) => tty_apply ctx st' t
+      | Err e => Err e
+      | Panic s => Panic s
+      | OutOfFuel => OutOfFuel
+      end
+  | TFace seq :: t => tty_apply ctx (set_face st (sgr_lookup (sgr_tab ctx) seq (w_face st))) t
+  | TRaw _ :: t => tty_apply ctx st t
+  end.
+
+Fixpoint tty_write (ctx : rctx) (st : wstate) (ts : tstate) (bytes : list N) : outcome (wstate * tstate) :=
+  match bytes with
+  | [] => Ok (st, ts)
+  | b :: rest =>
+      match tok_feed (cmd_dfa ctx) ts b with
+      | Ok (ts', items) =>
+          match tty_apply ctx st items with
+          | Ok st' => tty_write ctx st' ts' rest
+          | Err e => Err e
+          | Panic s => Panic s
+          | OutOfFuel => OutOfFuel
+          end
+      | Err e => Err e
+      | Panic s => Panic s
+      | OutOfFuel => OutOfFuel
+      end
+  end.
+
+Fixpoint tty_chunks (ctx : rctx) (st : wstate) (ts : tstate) (chunks : list (list N)) : outcome (wstate * tstate) :=
+  match chunks with
+  | [] => Ok (st, ts)
+  | c :: rest =>
+      match tty_write ctx st ts c with
+      | Ok (st', ts') => tty_chunks ctx st' ts' rest
+      | other => other
+      end
+  end.
+
 (* ---------- operations offered to a client of the writer ---------- *)
 Inductive wop :=
 | OChar (ch : N)                     (* put_char *)
@@ -207,8 +365,10 @@ Inductive wop :=
 | OFace (f : face)                   (* set_face *)
 | OWraps (b : bool)                  (* set_wraps *)
 | OWrite (chunks : list (list N))    (* io::Write::write once per chunk, stop at the first Err *)
-| OWriteU (chunks : list (list N)).  (* the same through writer.by_ref().utf8_writer(): Utf8CellWriter
+| OWriteU (chunks : list (list N))   (* the same through writer.by_ref().utf8_writer(): Utf8CellWriter
                                         with a decoder of its own, dropped afterwards *)
+| OWriteT (chunks : list (list N)).  (* through writer.by_ref().tty_writer(): TTYCellWriter decoding
+                                        characters and SGR escape sequences *)
 
 (* the same operation with all its bytes passed in one call: two programs with equal images
    differ only in how the bytes of each write are split across calls *)
@@ -216,6 +376,7 @@ Definition merge_op (o : wop) : wop :=
   match o with
   | OWrite chunks => OWrite [concat chunks]
   | OWriteU chunks => OWriteU [concat chunks]
+  | OWriteT chunks => OWriteT [concat chunks]
   | other => other
   end.
 
@@ -230,6 +391,13 @@ Definition wop_step (ctx : rctx) (st : wstate) (o : wop) : outcome (wstate * boo
       match write_chunks ctx (set_dec st u0) chunks with
       | Ok (st', b) => Ok (set_dec st' (w_dec st), b)
       | other => other
+      end
+  | OWriteT chunks =>
+      match tty_chunks ctx st (t0 (cmd_dfa ctx)) chunks with
+      | Ok (st', _) => Ok (st', true)
+      | Err e => Err e
+      | Panic s => Panic s
+      | OutOfFuel => OutOfFuel
       end
   end.
 
